@@ -29,7 +29,7 @@ def check(pid, tier):
     ev = Evidence(pid, tier)
     out_lines, violations, machinery = [], [], []
     rng = random.Random(seed())
-    fams = ["ring2", "chain3", "fan"] if tier == "quick" else ["ring2", "chain3", "fan", "loop3", "ring3"]
+    fams = ["ring2", "chain3", "fan", "ring2prov"] if tier == "quick" else ["ring2", "chain3", "fan", "ring2prov", "loop3", "ring3"]
     r = mc(fams, INVS, ["Terminates"])
     ev.add_mc("Connect/" + "+".join(fams), r, {"families": fams, "invariants": INVS, "liveness": "Terminates"})
     if not r.ok:
